@@ -271,11 +271,12 @@ def build_clis(a, rundir):
         if rc != 0:
             log(o)
             out.append(("build", f"go build ./cmd/{name}", o[-1500:]))
-    # the race-detector build of seqinfo (one extra run per case with two or more patterns)
-    rc, o = sh(["go", "build", "-race", "-tags", "verif", "-o", os.path.join(BUILD, "seqinfo.race"), "./cmd/seqinfo"], cwd=REPO, env=GOENV)
-    if rc != 0:
-        log(o)
-        out.append(("build", "go build -race ./cmd/seqinfo", o[-1500:]))
+    # the race-detector builds (one extra run per sampled case)
+    for name in ("seqls", "seqinfo"):
+        rc, o = sh(["go", "build", "-race", "-tags", "verif", "-o", os.path.join(BUILD, name + ".race"), "./cmd/" + name], cwd=REPO, env=GOENV)
+        if rc != 0:
+            log(o)
+            out.append(("build", f"go build -race ./cmd/{name}", o[-1500:]))
     return out
 
 
